@@ -93,9 +93,14 @@ class C09(IRProp):
         b = apply_one_at_a_time(case)
 
         def norm(x):
-            return re.sub(r"\.Lt_[A-Za-z0-9_]+", ".Lt_N", x) if isinstance(x, str) else x
+            # temporary labels carry the per-context patch counter as suffix
+            return re.sub(r"(\.L[A-Za-z]+)_[0-9]+", r"\1_N", x) if isinstance(x, str) else x
         if a[0] == "ok" and b[0] == "ok":
             da, db = json.loads(norm(a[1])), json.loads(norm(b[1]))
+            for d_ in (da, db):
+                for k_, v_ in d_.items():
+                    if isinstance(v_, list) and k_ != "sections":
+                        v_.sort(key=json.dumps)
             if da != db:
                 diff = [k for k in da if da[k] != db.get(k)]
                 return [dict(what=f"batch and one-at-a-time outputs differ in {diff}: " + "; ".join(f"{k}: {da[k]} vs {db[k]}" for k in diff[:2])[:600],
